@@ -116,7 +116,7 @@ impl DetectProp for C01 {
         // fallback slots can answer
         let mut rng = Rng::new(4242);
         for k in 0..(if thorough { 6 } else { 2 }) {
-            let (b, enc) = large_declared_bad_tail(&mut rng);
+            let (b, enc) = large_declared_bad_byte(&mut rng, k % 4);
             let mut s = Sett::default();
             s.thr = if k % 2 == 0 { 0.0 } else { 0.001 };
             if k % 3 != 2 {
@@ -172,6 +172,14 @@ impl DetectProp for C01 {
                     s.incl = vec![enc.to_string(), "utf-8".into(), "ascii".into()];
                     v.push(Case { bytes: b, sett: s, tag: format!("directed:large-multibyte-damaged-edge:{}:{}", enc, damage) });
                 }
+            }
+        }
+        // a stateful 7-bit encoding switched to two-byte mode right before byte 500,000
+        {
+            let mut rng2 = Rng::new(777);
+            v.push(large_stateful_split_case(&mut rng2));
+            if thorough {
+                v.push(large_stateful_split_case(&mut rng2));
             }
         }
         if thorough {
